@@ -31,8 +31,8 @@ STab == TLCEval([i \in DOMAIN Cases |-> TLCEval(SpecOf(Cases[i].g))])
 \* is the current case's grammar conflict-free LALR(1) (by the specification's definition)?
 \* (STab is referenced directly with the state variable, see DESIGN.md 0.3)
 
-VARIABLES l, phase, cs, variant, input, stk, vstk, la, laval, fetched, dok, reds, verdict, val, nfetch, ref, prev
-vars == <<l, phase, cs, variant, input, stk, vstk, la, laval, fetched, dok, reds, verdict, val, nfetch, ref, prev>>
+VARIABLES l, phase, cs, variant, input, stk, vstk, la, laval, fetched, dok, reds, verdict, val, nfetch, ref, prev, eref
+vars == <<l, phase, cs, variant, input, stk, vstk, la, laval, fetched, dok, reds, verdict, val, nfetch, ref, prev, eref>>
 run  == <<cs, variant, input, stk, vstk, la, laval, fetched, dok, reds>>
 outc == <<verdict, val, nfetch>>
 
@@ -77,6 +77,7 @@ GroupStarts == {i \in DOMAIN Trace : Trace[i].e = "reset" /\ Trace[i].first}
 Init == /\ l \in GroupStarts /\ phase = "idle" /\ cs = 0 /\ variant = "" /\ input = <<>>
         /\ stk = <<>> /\ vstk = <<>> /\ la = "" /\ laval = 0 /\ fetched = <<>> /\ dok = TRUE /\ reds = <<>>
         /\ verdict = "none" /\ val = "" /\ nfetch = 0 /\ ref = NoSum /\ prev = NoSum
+        /\ eref = [status |-> "none", pos |-> 0]
 
 Reset == /\ Ev("reset")
          /\ (phase = "idle" /\ Trace[l].first) \/ (phase = "ended" /\ ~Trace[l].first)
@@ -84,6 +85,14 @@ Reset == /\ Ev("reset")
          /\ stk' = <<>> /\ vstk' = <<>> /\ la' = "" /\ laval' = 0 /\ fetched' = <<>> /\ dok' = TRUE /\ reds' = <<>>
          /\ verdict' = "none" /\ val' = "" /\ nfetch' = 0
          /\ ref' = IF Trace[l].first THEN NoSum ELSE ref
+         \* reference outcome of this input, once per group: the Earley recogniser; for large conflict-free
+         \* grammars the specification's own LALR(1) table run (linear time) -- ConfDriver.tla (SpecTabOK) checks
+         \* on those same grammars that the two agree.  (STab is referenced directly, not through an operator
+         \* with parameters: see DESIGN.md 0.3.)
+         /\ eref' = IF ~Trace[l].first THEN eref
+                    ELSE IF Len(Cases[Trace[l].case].g.rules) > 45 /\ STab[Trace[l].case].conflictfree
+                    THEN LET r == Run(Cases[Trace[l].case].g, STab[Trace[l].case], Trace[l].input) IN [status |-> r.status, pos |-> r.pos]
+                    ELSE LET e == EarleyRun(Cases[Trace[l].case].g, Trace[l].input) IN [status |-> e.status, pos |-> e.pos]
          /\ prev' = IF Trace[l].first THEN NoSum
                     ELSE [verdict |-> verdict, reds |-> reds, val |-> val, nfetch |-> nfetch, variant |-> variant]
 
@@ -94,7 +103,7 @@ Fetch == /\ Ev("T") /\ phase = "run"
          /\ la' = Trace[l].tok
          /\ laval' = TokVal(cs, Len(fetched), Trace[l].ord, Trace[l].tok)
          /\ fetched' = Append(fetched, Trace[l].tok)
-         /\ UNCHANGED <<phase, cs, variant, input, dok, reds, outc, ref, prev>>
+         /\ UNCHANGED <<phase, cs, variant, input, dok, reds, outc, ref, prev, eref>>
 
 DoReduce == /\ Ev("R") /\ phase = "run"
           /\ LET r == Trace[l].rule IN
@@ -108,11 +117,11 @@ DoReduce == /\ Ev("R") /\ phase = "run"
                                        EvalAct(cs, r, SubSeq(vstk, Len(vstk) - n + 1, Len(vstk))))
                      /\ dok' = dok
                 ELSE /\ dok' = FALSE /\ UNCHANGED <<stk, vstk>>
-          /\ UNCHANGED <<phase, cs, variant, input, la, laval, fetched, outc, ref, prev>>
+          /\ UNCHANGED <<phase, cs, variant, input, la, laval, fetched, outc, ref, prev, eref>>
 
 \* lines this specification does not interpret (trace output, stray prints)
 Skip == /\ (Ev("other") \/ Ev("shift") \/ Ev("reduce")) /\ phase = "run"
-        /\ UNCHANGED <<phase, run, outc, ref, prev>>
+        /\ UNCHANGED <<phase, run, outc, ref, prev, eref>>
 
 EndRun == /\ Ev("end") /\ phase = "run"
           /\ phase' = "ended"
@@ -120,7 +129,7 @@ EndRun == /\ Ev("end") /\ phase = "run"
           /\ ref' = IF ref = NoSum
                     THEN [verdict |-> Trace[l].verdict, reds |-> reds, val |-> Trace[l].val, nfetch |-> Trace[l].nfetch, variant |-> variant]
                     ELSE ref
-          /\ UNCHANGED <<run, prev>>
+          /\ UNCHANGED <<run, prev, eref>>
 
 Next == Reset \/ Fetch \/ DoReduce \/ Skip \/ EndRun
 Spec == Init /\ [][Next]_vars
@@ -133,7 +142,7 @@ TraceAccepted == TLCGet("stats").distinct = Len(Trace) + Cardinality(GroupStarts
 Ended  == phase = "ended"
 Sum    == [verdict |-> verdict, reds |-> reds, val |-> val, nfetch |-> nfetch, variant |-> variant]
 SameRun(a, b) == a.verdict = b.verdict /\ a.reds = b.reds /\ a.val = b.val /\ a.nfetch = b.nfetch
-ERef   == EarleyRun(Gc, input)
+ERef   == eref    \* membership / first-bad reference of the current input, computed once per group (at the first reset)
 
 C01_Run == (Ended /\ verdict = "accept") =>
              /\ dok
@@ -141,14 +150,18 @@ C01_Run == (Ended /\ verdict = "accept") =>
              /\ la = End
              /\ fetched = input \o <<End>>
 C02_Run == (Ended /\ STab[cs].conflictfree /\ ERef.status = "accept") => verdict = "accept"
-C06_Class == Ended => \/ verdict \in {"accept", "syntaxerr"}
-                      \/ verdict = "diverge" /\ ~STab[cs].conflictfree
-\* whatever the grammar (conflicts or not): an input outside L(G) is never answered with a result
-C06_NoFalseAccept == (Ended /\ verdict = "accept") => ERef.status = "accept"
-C06_FirstBad == (Ended /\ STab[cs].conflictfree /\ ERef.status = "error") =>
-                   /\ verdict = "syntaxerr"
-                   /\ nfetch = ERef.pos
-                   /\ fetched = SubSeq(input \o <<End>>, 1, ERef.pos)
+\* C06 in one invariant so that the Earley reference is computed once per run:
+\*  (a) the outcome class is accept or the documented syntax error (divergence only on conflicted grammars);
+\*  (b) an input outside L(G) is never answered with a result, whatever the grammar;
+\*  (c) on conflict-free grammars the error comes exactly when the first bad token has been fetched.
+C06_Run == Ended =>
+  LET e == ERef IN
+  /\ (verdict \in {"accept", "syntaxerr"} \/ (verdict = "diverge" /\ ~STab[cs].conflictfree))
+  /\ (verdict = "accept" => e.status = "accept")
+  /\ (STab[cs].conflictfree /\ e.status = "error") =>
+        /\ verdict = "syntaxerr"
+        /\ nfetch = e.pos
+        /\ fetched = SubSeq(input \o <<End>>, 1, e.pos)
 \* C04 (behaviour): grammar with conflicts that are all decided by the C04 rules:
 \* the generated parser does what the specification's resolved table does
 SRef == Run(Gc, STab[cs], input)
